@@ -206,6 +206,9 @@ func Write(a *Archive, dir string) error {
 			return fmt.Errorf("%q: outside parent directory", f.Name)
 		}
 		fp = filepath.Join(dir, fp)
+		if err := checkInside(dir, fp, f.Name); err != nil {
+			return err
+		}
 
 		if err := os.MkdirAll(filepath.Dir(fp), 0o777); err != nil {
 			return err
@@ -226,6 +229,31 @@ func Write(a *Archive, dir string) error {
 		}
 	}
 	return nil
+}
+
+// checkInside reports an error if a symbolic link that already exists
+// below dir would take the file fp outside of dir: the nearest existing
+// ancestor of fp, with links resolved, must be dir or a directory below it.
+func checkInside(dir, fp, name string) error {
+	root, err := filepath.EvalSymlinks(dir)
+	if err != nil {
+		// dir does not exist yet, so nothing below it can be a link.
+		return nil
+	}
+	dir = filepath.Clean(dir)
+	for p := filepath.Dir(fp); ; p = filepath.Dir(p) {
+		real, err := filepath.EvalSymlinks(p)
+		if err == nil {
+			rel, err := filepath.Rel(root, real)
+			if err != nil || rel == ".." || strings.HasPrefix(rel, ".."+string(filepath.Separator)) {
+				return fmt.Errorf("%q: outside parent directory", name)
+			}
+			return nil
+		}
+		if p == dir || p == filepath.Dir(p) {
+			return nil
+		}
+	}
 }
 
 func isAbs(p string) bool {
